@@ -24,9 +24,24 @@ def strip_comments(src):
     return "\n".join(l.split("--")[0] for l in src.split("\n"))
 
 
+def witnesses_of(prop):
+    """Lean witness theorems of the known findings recorded for this property"""
+    out = []
+    path = os.path.join(VERIF, "KNOWN_FINDINGS.txt")
+    if os.path.exists(path):
+        for line in open(path):
+            if line.startswith("known:") and f"property={prop} " in line:
+                m = re.search(r"witness=(\S+)", line)
+                if m and m.group(1) not in out:
+                    out.append(m.group(1))
+    return out
+
+
 def build(prop=None):
     """build the property's theorem module (with everything it imports) and the protocol driver"""
     targets = ["npdriver"] + ([f"NPModel.Props.{prop}"] if prop else [])
+    if prop and witnesses_of(prop):
+        targets.append("NPModel.Findings")
     r = subprocess.run(["lake", "build"] + targets, cwd=LEAN_DIR, capture_output=True, text=True)
     return r.returncode == 0, (r.stdout + r.stderr)[-3000:]
 
@@ -63,7 +78,10 @@ def audit(prop, thorough=False):
     if path is None:
         res.update(ok=False, broken=f"NPModel/Props/{prop}.lean missing")
         return res
+    wit = witnesses_of(prop)
+    thms = thms + wit
     res["obligations"] = len(thms)
+    res["finding_witnesses"] = wit
     if not ok:
         res.update(ok=False, broken="lake build", detail=out)
         return res
@@ -75,6 +93,8 @@ def audit(prop, thorough=False):
     af = os.path.join(LEAN_DIR, ".lake", "audit", f"{prop}.lean")
     with open(af, "w") as f:
         f.write(f"import NPModel.Props.{prop}\n")
+        if wit:
+            f.write("import NPModel.Findings\n")
         for t in thms:
             f.write(f"#print axioms {t}\n")
     r = subprocess.run(["lake", "env", "lean", af], cwd=LEAN_DIR, capture_output=True, text=True)
